@@ -20,7 +20,14 @@ def parseView : List Sexp → Option View
   | [.atom "keys"] => some .keys
   | _ => none
 
+def parseBound : Sexp → Option (Option Int)
+  | .atom "-" => some none
+  | x => x.asInt?.map some
+
 def parseCOp : Sexp → Option COp
+  | .list (.atom "setslice" :: i :: j :: .atom k :: xs) => do
+      let one ← (match k with | "L" => some false | "G" => some true | _ => none)
+      pure (.setslice (← parseBound i) (← parseBound j) one (← parseNats xs))
   | .list (.atom "assignView" :: v) => do pure (.assignView (← parseView v))
   | .list [.atom "append", x] => do pure (.append (← x.asNat?))
   | .list [.atom "add", x] => do pure (.append (← x.asNat?))
@@ -47,6 +54,7 @@ def elems : COp → List Nat
   | .append x => [x] | .extend xs => xs | .insert _ x => [x] | .setitem _ x => [x]
   | .assign xs => xs | .assignSelf => [] | .iadd xs => xs | .iaddAlias xs => xs
   | .assignView (.chain xs) => xs | .assignView _ => []
+  | .setslice _ _ _ xs => xs
 
 def parseTOp : Sexp → Option TOp
   | .list [.atom "adopt"] => some .adopt
@@ -85,9 +93,11 @@ def run (s : Sexp) : String :=
       let sp := specC key isSet (specC key isSet ⟨[], []⟩ (init.map .append)) ops
       let cl := closure R fuel (sp.calls.map fun t => (f, a, t))
       let spec := if cl.2 then showContents isSet sp.c ++ "|" ++ showRels cl.1 else "spec-diverged"
-      -- F-C16-1..4 are repaired in /repo (fix commits 1406c8c, 86aebcb): the model tied to the code is `Quirks.none`,
-      -- and no trigger excuses a deviation any more
-      s!"model={out Quirks.none}\tspec={spec}\ttrig="
+      -- F-C16-1..4 and the slice-assignment defects F-C16-7/8 are repaired in /repo (fix commits 1406c8c, 86aebcb,
+      -- 5eefee2): the model tied to the code is `Quirks.none`; `model_before_slice_fix=` is the code before 5eefee2
+      let trig := (if trigSliceTwins key ops then ["F-C16-7"] else []) ++
+        (if trigSliceOneShot ops then ["F-C16-8"] else [])
+      s!"model={out Quirks.none}\tspec={spec}\ttrig={",".intercalate trig}\tmodel_before_slice_fix={out Quirks.now}"
     | _, _, _, _, _, _ => "error=bad-case"
   | .list (.atom "w2" :: items) =>
     match parseSchema items, parseWorld items, (Sexp.field? items "ops").bind (·.mapM parseTOp),
@@ -100,6 +110,7 @@ def run (s : Sexp) : String :=
       let wf := f < S.fields.length && a < W.size && b < W.size && a != b && S.kindOf f != .single &&
         W.clsOf a == W.clsOf b &&
         (init ++ ops.flatMap telems).all (· < W.size) && ops.all (·.applicable isSet) && twoOk false ops &&
+        ops.all (fun o => match o with | .on _ (.setslice _ _ _ _) => false | _ => true) &&
         W.rt.all (fun r => match r with | some x => x < W.size | none => true)
       if !wf then "error=ill-formed-case" else
       let R := schemaRules S W
